@@ -1,6 +1,7 @@
 package main
 
 import (
+	"regexp"
 	"encoding/json"
 	"flag"
 	"fmt"
@@ -42,7 +43,8 @@ type vdesc struct {
 var packPrims = map[string]reflect.Type{"bool": reflect.TypeOf(true), "int8": reflect.TypeOf(int8(0)), "int64": reflect.TypeOf(int64(0)),
 	"uint64": reflect.TypeOf(uint64(0)), "float64": reflect.TypeOf(float64(0)), "string": reflect.TypeOf(""), "dur": reflect.TypeOf(time.Duration(0)),
 	"int16": reflect.TypeOf(int16(0)), "int32": reflect.TypeOf(int32(0)), "int": reflect.TypeOf(int(0)), "uint8": reflect.TypeOf(uint8(0)),
-	"uint16": reflect.TypeOf(uint16(0)), "uint32": reflect.TypeOf(uint32(0)), "uint": reflect.TypeOf(uint(0)), "float32": reflect.TypeOf(float32(0))}
+	"uint16": reflect.TypeOf(uint16(0)), "uint32": reflect.TypeOf(uint32(0)), "uint": reflect.TypeOf(uint(0)), "float32": reflect.TypeOf(float32(0)),
+	"re": reflect.TypeOf((*regexp.Regexp)(nil))}
 
 func buildType(t tdesc) reflect.Type { return buildTypeTag(t, "config") }
 
@@ -129,6 +131,8 @@ func buildVal(t tdesc, v vdesc, rt reflect.Type) reflect.Value {
 		out.SetFloat(f)
 	case "string", "ustr", "uany":
 		out.SetString(rawStr(v.V))
+	case "re":
+		out.Set(reflect.ValueOf(regexp.MustCompile(rawStr(v.V))))
 	case "ptr":
 		p := reflect.New(rt.Elem())
 		p.Elem().Set(buildVal(*t.E, *v.P, rt.Elem()))
@@ -176,6 +180,11 @@ func encodeVal(t tdesc, v reflect.Value) jm {
 		return jm{"k": "float", "v": strconv.FormatFloat(v.Float(), 'g', -1, 64)}
 	case "string", "ustr", "uany":
 		return jm{"k": "string", "v": v.String()}
+	case "re":
+		if v.IsNil() {
+			return jm{"k": "re", "nil": true}
+		}
+		return jm{"k": "re", "v": v.Interface().(*regexp.Regexp).String()}
 	case "ptr":
 		if v.IsNil() {
 			return jm{"k": "ptr", "nil": true}
@@ -214,6 +223,8 @@ func encodeVal(t tdesc, v reflect.Value) jm {
 // identity-level facts are compared (nil-ness, length).
 func sameFields(t tdesc, a, b reflect.Value) bool {
 	switch t.K {
+	case "re":
+		return eqRegexp(a, b)
 	case "ptr":
 		return a.IsNil() == b.IsNil()
 	case "slice":
@@ -280,6 +291,14 @@ func annotateSigns(v jm) {
 	}
 }
 
+// eqRegexp: two *regexp.Regexp are the same value when both are nil or both have the same source text
+func eqRegexp(a, b reflect.Value) bool {
+	if a.IsNil() || b.IsNil() {
+		return a.IsNil() == b.IsNil()
+	}
+	return a.Interface().(*regexp.Regexp).String() == b.Interface().(*regexp.Regexp).String()
+}
+
 // hasInlineMap: the type holds an `,inline` map somewhere (open finding KF-28: not claimed by the frame events)
 func hasInlineMap(t tdesc) bool {
 	if t.E != nil && hasInlineMap(*t.E) {
@@ -296,6 +315,8 @@ func hasInlineMap(t tdesc) bool {
 // eqPack: equality modulo nil ~ empty collections; ignored fields must come back zero.
 func eqPack(t tdesc, a, b reflect.Value) bool {
 	switch t.K {
+	case "re":
+		return eqRegexp(a, b)
 	case "ptr":
 		if a.IsNil() || b.IsNil() {
 			return a.IsNil() == b.IsNil()
@@ -516,7 +537,7 @@ type pgen struct {
 }
 
 var pgenPrims = []string{"bool", "int8", "int16", "int32", "int64", "int", "uint8", "uint16", "uint32", "uint64", "uint", "float32", "float64",
-	"string", "dur", "ustr", "uany"}
+	"string", "dur", "ustr", "uany", "re"}
 
 type jm = map[string]interface{}
 
@@ -603,7 +624,8 @@ var pgenInts = map[string][]int64{"int8": {-128, 127, 0, -1, 5}, "int16": {-3276
 	"int64": {math.MinInt64, math.MaxInt64, 0, -1, 1 << 40}, "int": {math.MinInt64, math.MaxInt64, 0, 42}}
 var pgenUints = map[string][]uint64{"uint8": {0, 255, 7}, "uint16": {0, 65535, 256}, "uint32": {0, math.MaxUint32, 65536},
 	"uint64": {0, math.MaxUint64, 1 << 63, math.MaxInt64}, "uint": {0, math.MaxUint64, 9}}
-var pgenStrs = []string{"", "a$b.c,d{e}", "x y", "é", "0", "true", "[1,2]", "k: v", "ok"}
+var pgenStrs = []string{"", "a$b.c,d{e}", "x y", "é", "0", "true", "[1,2]", "k: v", "ok", " pad\t", "\n"}
+var pgenRes = []string{"a.*b", " ^x, $\t", "", "^\\s+key$", "[a-z]{2,3} ", "é|ö"}
 var pgenDurs = []string{"1500000000", "0", "60000000000", "-1"}
 
 func (g *pgen) val(t jm) jm {
@@ -629,6 +651,8 @@ func (g *pgen) val(t jm) jm {
 		return jm{"k": "string", "v": []string{"ok", "x y", "é"}[g.rng.Intn(3)]}
 	case "dur":
 		return jm{"k": "dur", "v": pgenDurs[g.rng.Intn(len(pgenDurs))]}
+	case "re":
+		return jm{"k": "re", "v": pgenRes[g.rng.Intn(len(pgenRes))]}
 	case "ptr":
 		if g.rng.Intn(4) == 0 {
 			return jm{"k": "ptr", "nil": true}
